@@ -11,7 +11,7 @@ mkdir -p "$wt/_seed"; cp "$demo" "$wt/_seed/_demo.py"   # demos locate the tree 
 ( cd "$wt" && PYTHONPATH="$wt" /venv/bin/python _seed/_demo.py > /tmp/seedconfirm/$id.clean.log 2>&1 ); clean=$?
 git -C "$wt" apply "$patch" || { echo "$id: patch does not apply"; git -C /repo worktree remove --force "$wt"; exit 3; }
 ( cd "$wt" && PYTHONPATH="$wt" /venv/bin/python _seed/_demo.py > /tmp/seedconfirm/$id.mut.log 2>&1 ); mut=$?
-( cd "$wt" && /venv/bin/python -m pytest -q -p no:cacheprovider --timeout=900 -q -n 4 mpmath/tests > /tmp/seedconfirm/$id.suite.log 2>&1 ); suite=$?
+( cd "$wt" && /venv/bin/python -m pytest -q -p no:cacheprovider --timeout=900 -q mpmath/tests > /tmp/seedconfirm/$id.suite.log 2>&1 ); suite=$?
 tail -1 /tmp/seedconfirm/$id.suite.log > /tmp/seedconfirm/$id.suite.tail
 git -C /repo worktree remove --force "$wt"
 echo "$id: demo clean exit=$clean, demo with change exit=$mut, suite with change exit=$suite ($(cat /tmp/seedconfirm/$id.suite.tail))"
